@@ -84,7 +84,9 @@ class Report:
     def need(self, cond: Any, what: str) -> None:
         """Non-vacuity / anchor check: failing it makes the run undecided (exit 2)."""
         if not cond:
-            if self.findings():
+            # only a finding that is not already on the known list pre-empts the missing anchor: with nothing but known
+            # findings so far, stopping here would pass the rest of the rules unread
+            if self.findings() and classify(self)[1]:
                 # an obligation has already failed at a named construct: report that instead of
                 # an undecided run (the missing anchor is most likely a consequence of it)
                 raise Abort(what)
